@@ -368,8 +368,12 @@ func (env *ExprEnv) ident(name string) Val {
 				if fv.Name() == name {
 					if cell, ok := env.a.env[fv]; ok {
 						T := derefType(fv.Type())
-						prefix, ref, idx := locOf(cell, T)
 						_ = i
+						if kindOfType(T) == KStruct {
+							// a captured struct variable (e.g. an atomic cell): specifications talk about it through its address
+							return cell
+						}
+						prefix, ref, idx := locOf(cell, T)
 						return t.load(env.st, prefix, ref, idx, T)
 					}
 				}
